@@ -44,6 +44,20 @@ def main() -> None:
     save_code = MPSBackendImpl.save_simulation.__code__
     gs_code = MPSBackendImpl.__getstate__.__code__
 
+    def open_names() -> list:
+        names = []
+        try:
+            for fd in os.listdir("/proc/self/fd"):
+                try:
+                    t = os.readlink(f"/proc/self/fd/{fd}")
+                except OSError:
+                    continue
+                if t.startswith(workdir) and not t.endswith((".ndjson", ".jsonl")):
+                    names.append(os.path.basename(t))
+        except OSError:
+            pass
+        return names
+
     def snapshot() -> dict:
         out = {}
         for f in os.listdir(workdir):
@@ -59,7 +73,7 @@ def main() -> None:
         if state["n"] == kill_at:
             os._exit(77)
         if log is not None:
-            log.write(json.dumps({"n": state["n"], "tag": tag, "line": line, "lasti": off, "save": state["save_calls"], "fs": snapshot()}) + "\n")
+            log.write(json.dumps({"n": state["n"], "tag": tag, "line": line, "lasti": off, "save": state["save_calls"], "fs": snapshot(), "open": open_names()}) + "\n")
             log.flush()
 
     # per-instruction events of save_simulation (sys.monitoring, Python >= 3.12); __getstate__ entry marks "mid-write"
